@@ -203,6 +203,22 @@ def _E(modpath, name):
     return getattr(importlib.import_module(modpath), name)
 
 
+def _same_number_other_country():
+    """sign ids of OTHER countries' catalogues that carry the same catalogue number as the base ids (Germany STOP / MAX_SPEED): different enum
+    members, hence different attribute values"""
+    import enum
+    from commonroad.scenario import traffic_sign as ts
+    base = [ts.TrafficSignIDGermany.STOP, ts.TrafficSignIDGermany.MAX_SPEED]
+    out = []
+    for n in sorted(dir(ts)):
+        c = getattr(ts, n)
+        if isinstance(c, type) and issubclass(c, enum.Enum) and n.startswith("TrafficSignID") and c not in (ts.TrafficSignIDGermany, ts.TrafficSignIDZamunda):
+            for m in c:
+                if any(m.value == b.value for b in base):
+                    out.append(lambda m=m: m)
+    return out[:8]
+
+
 def table():
     """name -> dict(cls, default: kwargs factory, full: kwargs factory, alts: {param: [factories]}, perms: {param: [factories]},
                     attr: {param: attribute name}, container: bool)"""
@@ -390,7 +406,7 @@ def table():
     T["TrafficSignElement"] = dict(cls=_E("commonroad.scenario.traffic_sign", "TrafficSignElement"),
                                    default=lambda: dict(traffic_sign_element_id=TrafficSignIDGermany.STOP, additional_values=[]),
                                    full=lambda: dict(traffic_sign_element_id=TrafficSignIDGermany.MAX_SPEED, additional_values=["50", "x"]),
-                                   alts=dict(traffic_sign_element_id=[lambda: TrafficSignIDGermany.YIELD, lambda: TrafficSignIDZamunda.MAX_SPEED],
+                                   alts=dict(traffic_sign_element_id=[lambda: TrafficSignIDGermany.YIELD, lambda: TrafficSignIDZamunda.MAX_SPEED] + _same_number_other_country(),
                                              additional_values=[lambda: ["60", "x"], lambda: ["50"]]),
                                    perms=dict(additional_values=[lambda: ["x", "50"]]))
     T["TrafficSign"] = dict(cls=_E("commonroad.scenario.traffic_sign", "TrafficSign"),
@@ -825,6 +841,16 @@ def run_class(name, spec, res, pairs=False):
             else:
                 reps.append(("np.int64", lambda v=v: np.int64(v)))
                 reps.append(("float", lambda v=v: float(v)))
+            # ... and the degenerate interval [v, v]: whether it equals the plain value is not stated, but objects that compare equal need equal hashes
+            from commonroad.common.util import Interval
+            def y_iv(mkkw=mkkw, p=p, v=v):
+                kw = mkkw(); kw[p] = Interval(v, v)
+                return cls(**kw)
+            try:
+                y_iv()
+                _check_variant(name, f"{p}(as degenerate interval)", lambda: cls(**mkkw()), y_iv, None, res, {"class": name, "base": basek, "representation": [p, "interval"]})
+            except Exception:
+                res.guarded += 1; res.outcomes["representation-rejected-by-constructor"] += 1
             for rn, rf in reps:
                 def y_mk(mkkw=mkkw, p=p, rf=rf):
                     kw = mkkw(); kw[p] = rf()
